@@ -2,11 +2,18 @@
 Scenario corpus builders shared by the engine-level checks.  A scenario is a JSON-able dict (see world.World).
 Every scenario carries a `family` string made of structural facts only; violation signatures use it.
 """
-import copy, itertools
+import copy, itertools, json
 from .world import fn_arn, sm_arn, exec_arn
 
 def Task(fn, **kw):
     s = {"Type": "Task", "Resource": fn_arn(fn)}
+    s.update(kw)
+    return s
+
+def Invoke(fn, **kw):
+    """Long-form invocation: the correlation id gets an '.invoke' suffix and the result is wrapped in metadata."""
+    s = {"Type": "Task", "Resource": "arn:aws:states:local::rpcmessage:invoke",
+         "Parameters": {"FunctionName": fn_arn(fn), "Payload.$": "$"}, "ResultSelector": {"p.$": "$.Payload", "code.$": "$.StatusCode"}}
     s.update(kw)
     return s
 
@@ -101,6 +108,11 @@ def handler_coverage_corpus():
     add("task-resultselector-fail", chain(("A", Task("f1", ResultSelector={"x.$": "$.missing"})), Z), workers=w1)
     add("task-invalid-json-reply", chain(("A", Task("f1")), Z), workers={"f1": {"*": [["raw", "{not json"]]}})
     add("task-invalid-service", chain(("A", {"Type": "Task", "Resource": "arn:aws:nosuch:local::function:x"}), Z))
+    add("task-invoke-next", chain(("A", Invoke("f1")), Z), workers=w1)
+    add("task-invoke-error", chain(("A", Invoke("f1")), Z), workers={"f1": {"*": ERR()}})
+    add("task-invoke-timeout", chain(("A", Invoke("f1", TimeoutSeconds=3)), Z), workers={"f1": {"*": NONE}})
+    add("task-invoke-missing-fn", chain(("A", {"Type": "Task", "Resource": "arn:aws:states:local::rpcmessage:invoke", "Parameters": {"Payload": 1}}), Z))
+    add("task-empty-params", chain(("A", Task("f1", Parameters={}, ResultSelector={}, ResultPath="$.r")), ("B", Pass(Parameters={}, ResultPath="$.p")), Z), workers=w1, input={"in": 1})
     add("choice-match", chain(("A", Choice([{"Variable": "$.x", "NumericEquals": 1, "Next": "Z"}], default="Y")), ("Y", Pass(End=True)), Z), input={"x": 1})
     add("choice-default", chain(("A", Choice([{"Variable": "$.x", "NumericEquals": 2, "Next": "Z"}], default="Y")), ("Y", Pass(End=True)), Z), input={"x": 1})
     add("choice-nomatch", chain(("A", Choice([{"Variable": "$.x", "NumericEquals": 2, "Next": "Z"}])), Z), input={"x": 1})
@@ -267,6 +279,20 @@ def fanout_ok_family(tier="quick"):
     add("par-in-map", chain(("M", Map(chain(("P", Parallel([_branch("A", 1), _branch("B", 1, "pass")]))))), Z), inp=[1, 2],
         workers={"f_A1": {"*": [["echo"]]}})
     add("map-in-par", chain(("P", Parallel([chain(("M", Map(it, ItemsPath="$.items"))), _branch("B", 1)])), Z), inp={"items": [1, 2]}, workers=echo)
+    add("par-invoke", chain(("P", Parallel([chain(("A1", Invoke("f_A1"))), _branch("B", 1)])), Z))
+    # the same Map state entered twice in one execution (loop through a Choice)
+    loop = {"StartAt": "M", "States": {
+        "M": Map(chain(("I", Task("fi"))), ItemsPath="$.items", ResultPath="$.res", Next="N"),
+        "N": Pass(Parameters={"items.$": "$.next", "next": [], "seen.$": "$.res", "again.$": "$.more", "more": False}, Next="C"),
+        "C": Choice([{"Variable": "$.again", "BooleanEquals": True, "Next": "M"}], default="Z"),
+        "Z": Pass(End=True)}}
+    add("map-reentered-loop", loop, inp={"items": ["a1", "a2"], "next": ["b1", "b2"], "more": True}, workers={"fi": {"*": [["echo"]]}})
+    # an iteration whose failure is caught inside the iteration, under MaxConcurrency (the slot is marked caught while its fallback runs)
+    itc = chain(("I", Task("fi", Catch=[{"ErrorEquals": ["States.ALL"], "Next": "Fix", "ResultPath": "$.e"}])), ("Fix", Task("ffix")))
+    itc["States"]["I"]["End"] = True
+    itc["States"]["I"].pop("Next", None)
+    add("map-mc2-caught-iteration", chain(("M", Map(itc, MaxConcurrency=2, ItemSelector={"v.$": "$$.Map.Item.Value"})), Z), inp=[0, 1, 2] if tier == "quick" else [0, 1, 2, 3],
+        workers={"fi": {json.dumps({"v": 0}): ERR(), "*": [["echo"]]}, "ffix": {"*": [["ok", "fixed"]]}}, maxc={"fi": 2})
     if tier == "thorough":
         add("par-3x2", chain(("P", Parallel([_branch("A", 2), _branch("B", 2), _branch("C", 2)])), Z))
         add("par-4x1", chain(("P", Parallel([_branch(c, 1) for c in "ABCD"])), Z))
@@ -286,6 +312,9 @@ def fanout_fail_family(tier="quick"):
             d = chain(("P", Parallel([_branch("A", 1), _branch("B", nb)], **h)), Z)
             w = _okworkers(d, {"f_A1": {"*": ERR()}})
             out.append(scenario("parfail-A-task-B%d-%s" % (nb, hname), d, workers=w, family="parfail-task-sibling-%s" % hname))
+        # sibling is a long-form invoke Task (correlation id = event id + '.invoke')
+        d = chain(("P", Parallel([_branch("A", 1), chain(("B1", Invoke("f_B1")), ("B2", Pass()))], **h)), Z)
+        out.append(scenario("parfail-A-task-Binvoke-%s" % hname, d, workers=_okworkers(d, {"f_A1": {"*": ERR()}, "f_B1": {"*": [["ok", "b"]]}}), family="parfail-invoke-sibling-%s" % hname))
         # failing attempt then success on retry
         if "Retry" in h:
             d = chain(("P", Parallel([_branch("A", 1), _branch("B", 1)], **h)), Z)
